@@ -652,3 +652,64 @@ func c01UDPReadBuffer(c *an.Ctx, rule string) {
 		fmt.Sprintf("UDP datagrams are read into %d-byte buffers", eff),
 		fmt.Sprintf("UDP datagrams are read into %d-byte buffers (set by NewListener: %v; default of newServerDNS: %d): a well-formed query longer than that is cut by the read, fails to unpack and gets no response over plain UDP, while every other transport answers it", eff, set, def))
 }
+
+// c09WindowLifetimeCoversInterval: the sliding windows of the backoff limiter
+// live in an expiring cache.  A window that expires sooner than the counting
+// interval after its last use forgets events that still count, so the lifetime
+// given to that cache in NewBackoff is computed from both counting intervals
+// (not from the backoff period alone, which configuration allows to be shorter).
+func c09WindowLifetimeCoversInterval(c *an.Ctx, rule string) {
+	k := "dnsserver/ratelimit.NewBackoff"
+	fn := c.Fn(k)
+	key := k + ": the lifetime of the request windows covers both counting intervals"
+	if fn == nil {
+		c.Und(rule, key, token.NoPos, "anchor not found")
+		return
+	}
+	c.Analysed(k)
+	var lifetime ssa.Value
+	an.Instrs(fn, func(in ssa.Instruction) {
+		st, ok := in.(*ssa.Store)
+		if !ok {
+			return
+		}
+		if _, f, _, ok := an.FieldOf(st.Addr); !ok || f != "reqCounters" {
+			return
+		}
+		if call, isCall := st.Val.(*ssa.Call); isCall && strings.HasSuffix(an.CalleeName(call), "go-cache.New") && len(call.Call.Args) == 2 {
+			lifetime = call.Call.Args[0]
+		}
+	})
+	if lifetime == nil {
+		c.Und(rule, key, fn.Pos(), "the constructor call of the reqCounters cache was not found")
+		return
+	}
+	fields := map[string]bool{}
+	seen := map[ssa.Value]bool{}
+	var walk func(v ssa.Value, depth int)
+	walk = func(v ssa.Value, depth int) {
+		if v == nil || seen[v] || depth > 12 {
+			return
+		}
+		seen[v] = true
+		if _, f, _, ok := an.FieldOf(v); ok {
+			fields[f] = true
+		}
+		if in, ok := v.(ssa.Instruction); ok {
+			for _, op := range in.Operands(nil) {
+				if op != nil && *op != nil {
+					walk(*op, depth+1)
+				}
+			}
+		}
+	}
+	walk(lifetime, 0)
+	var got []string
+	for f := range fields {
+		got = append(got, f)
+	}
+	sort.Strings(got)
+	c.Check(fields["IPv4Interval"] && fields["IPv6Interval"], rule, key, fn.Pos(),
+		"the lifetime is computed from "+strings.Join(got, ", "),
+		"the lifetime of the request windows is computed from ["+strings.Join(got, ", ")+"] only: with a backoff period shorter than a counting interval a subnet that pauses for longer than the period starts with an empty window, and more than the configured number of queries is answered within one interval")
+}
